@@ -33,13 +33,15 @@ func (y CheckWhen) check(s *Selection, m meta.Meta) (bool, error) {
 		return true, nil
 	}
 	if hw, ok := m.(meta.HasWhen); ok {
-		if hw.When() != nil {
-			xp, err := xpath.Parse(hw.When().Expression())
+		// a node's own condition and the ones it inherited from uses and augment
+		for w := hw.When(); w != nil; w = w.And() {
+			xp, err := xpath.Parse(w.Expression())
 			if err != nil {
 				return false, err
 			}
-			proceed, err := s.XPredicate(xp)
-			return proceed, err
+			if proceed, err := s.XPredicate(xp); !proceed || err != nil {
+				return false, err
+			}
 		}
 	}
 	return true, nil
